@@ -164,6 +164,8 @@ class CallsMixin:
             return f.fn(*args)
         if isinstance(f, BoundMethod):
             return self.call_method(f.obj, f.name, args, kwargs, fr, awaited)
+        if type(getattr(f, "__self__", None)).__module__ == "argparse":
+            return self.call_argparse(f, args, kwargs, fr)
         if isinstance(f, Closure):
             return self.call_closure(f, args, kwargs, fr, awaited)
         if isinstance(f, SObj):
@@ -194,6 +196,26 @@ class CallsMixin:
         if isinstance(f, SymOpaque):
             raise Unsupported(f"call of opaque value {f.label or f.e} at {fr.where()}")
         raise Unsupported(f"call of {f!r} at {fr.where()}")
+
+    def call_argparse(self, f, args, kwargs, fr):
+        fself = f.__self__
+        if True:
+            if getattr(f, "__name__", "") == "parse_args":
+                from .models_cli import make_namespace
+
+                return make_namespace(self, fself)
+            # building the parser: every argument is concrete (interpreted functions passed as
+            # `type=` are replaced by a stub -- parse_args is not executed natively)
+            def conc(x):
+                if isinstance(x, Closure):
+                    return (lambda v: v)
+                if isinstance(x, PList) and x.sym is None:
+                    return [conc(i) for i in x.items]
+                if is_sym(x) or isinstance(x, (SObj, PDict)):
+                    raise Unsupported("symbolic argument to argparse")
+                return x
+
+            return f(*[conc(a) for a in args], **{k: conc(v) for k, v in kwargs.items()})
 
     # ============================================================== repo functions
     def qual_of(self, cls) -> str:
@@ -340,6 +362,8 @@ class CallsMixin:
 
     # ============================================================== instantiate
     def instantiate(self, cls, args, kwargs, fr):
+        if (cls.__module__ or "") == "argparse" and not any(is_sym(a) for a in args):
+            return cls(*args, **kwargs)  # the real parser, built natively
         if issubclass(cls, BaseException):
             mod = cls.__module__ or ""
             if mod.startswith("hypercorn") and "__init__" in cls.__dict__:
@@ -353,7 +377,18 @@ class CallsMixin:
         if hasattr(cls, "__dataclass_fields__") and (cls.__module__ or "").startswith("hypercorn"):
             return self.new_dataclass(cls, args, kwargs, fr)
         if isinstance(cls, type) and issubclass(cls, enum.Enum):
-            raise Unsupported("enum call")
+            if args and not is_sym(args[0]):
+                try:
+                    return cls(args[0])
+                except ValueError as ex:
+                    raise mk_exc(ValueError, str(ex), where=fr.where())
+            # Enum(value) of a library enum: an opaque member determined by the value (or ValueError)
+            from .sym import Opaque
+
+            if self.ctx.choose(2, f"{cls.__name__}(value)@{fr.line}", ["member", "ValueError"]) == 1:
+                raise mk_exc(ValueError, "not a valid enum value", where=fr.where())
+            f = z3.Function(f"enum_{cls.__name__}", z3.IntSort(), Opaque)
+            return SymOpaque(f(z3_of_int(args[0])), cls.__name__)
         if (cls.__module__ or "").startswith("hypercorn"):
             fc = self.reg.fns.get(f"{cls.__module__}:{cls.__qualname__}.__init__")
             obj = SObj(cls, {})
@@ -481,6 +516,10 @@ class CallsMixin:
         v = a[0]
         if type(v).__name__ == "Bottom":
             return v
+        if type(v).__name__ == "SymGiven":
+            from .models_cli import unwrap_given
+
+            v = unwrap_given(self, v)
         if isinstance(v, SymOpt):
             if self.ctx.branch(v.is_none, "isNone"):
                 raise mk_exc(TypeError, "len(None)", where=fr.where())
@@ -993,12 +1032,12 @@ class CallsMixin:
                         raise mk_exc(UnicodeEncodeError, "latin-1", "", 0, 1, "x", where=fr.where())
                 return mk_str(e, newkind)
             if enc == "ascii":
-                if not ctx.branch(s_ascii_ok(e), "ascii ok"):
+                if not ctx.branch(ascii_cond(e), "ascii ok"):
                     raise mk_exc(UnicodeDecodeError if name == "decode" else UnicodeEncodeError, "ascii", b"", 0, 1, "x", where=fr.where())
                 return mk_str(e, newkind)
             if enc in ("utf8",):
                 # ascii-only strings map to themselves; otherwise opaque (decode may fail)
-                if ctx.branch(s_ascii_ok(e), "ascii ok"):
+                if ctx.branch(ascii_cond(e), "ascii ok"):
                     return mk_str(e, newkind)
                 if name == "decode":
                     if ctx.choose(2, "utf8 decode", ["ok", "UnicodeDecodeError"]) == 1:
@@ -1032,7 +1071,9 @@ class CallsMixin:
             ctx.assumptions_used.add("str.split result is an uninterpreted non-empty sequence")
             return PList(sym=sq)
         if name == "rstrip":
-            r = SymStr(ctx.fresh("rstrip", Str), kind)
+            chars = str_to_z3(args[0]) if args else z3.StringVal(" ")
+            f_rstrip = z3.Function("s_rstrip", Str, Str, Str)
+            r = SymStr(f_rstrip(e, chars), kind)
             ctx.assume(z3.PrefixOf(r.e, e))
             if args and not is_sym(args[0]) and len(args[0]) == 1:
                 ctx.assume(z3.Not(z3.SuffixOf(str_to_z3(args[0]), r.e)))
@@ -1048,6 +1089,19 @@ class CallsMixin:
         if name == "format":
             return SymStr(ctx.fresh("formatted", Str), kind)
         raise Unsupported(f"str.{name} (symbolic) at {fr.where()}")
+
+
+def ascii_cond(e):
+    """is the string term pure ASCII?  structural over concatenations and literals"""
+    if z3.is_string_value(e):
+        try:
+            e.as_string().encode("ascii")
+            return z3.BoolVal("\\u{" not in e.as_string() or all(int(x, 16) < 128 for x in __import__("re").findall(r"\\u\{([0-9a-fA-F]+)\}", e.as_string())))
+        except UnicodeEncodeError:
+            return z3.BoolVal(False)
+    if z3.is_app(e) and e.decl().kind() == z3.Z3_OP_SEQ_CONCAT:
+        return z3.And(*[ascii_cond(c) for c in e.children()])
+    return s_ascii_ok(e)
 
 
 class BoundMethodResultKeys:
